@@ -571,6 +571,23 @@ fn zombies(s: &Sys) -> Vec<usize> {
     (0..s.ci.len()).filter(|i| !s.ci[*i].task && s.w.clients[*i].is_none() && s.w.chandles[*i].borrow().is_some()).collect()
 }
 
+/// serial of a new query of connection c for type t: the smallest serial c has no open query under
+/// (serials are reused as soon as they are answered); sometimes the serial of an open query for the
+/// SAME type (the broker does not look at requester serials; the answered-exactly-once monitor
+/// counts per serial, which stays exact when the duplicates ask for the same type)
+fn qry_serial(r: &mut Rng, s: &Sys, c: usize, t: usize) -> u32 {
+    let open = &s.ci[c].open;
+    let same: Vec<u32> = open.iter().chain(s.ci[c].forgotten.iter()).filter(|(_, ot)| *ot == t).map(|(sr, _)| *sr).collect();
+    if !same.is_empty() && r.chance(1, 12) {
+        return *r.pick(&same);
+    }
+    let mut k = 0u32;
+    while open.iter().chain(s.ci[c].forgotten.iter()).any(|(sr, _)| *sr == k) {
+        k += 1;
+    }
+    k
+}
+
 fn gen_req(r: &mut Rng, s: &Sys, c: usize, hot: usize) -> Req {
     let roll = r.below(100);
     let all_asked: Vec<(usize, u32, usize)> =
@@ -592,7 +609,7 @@ fn gen_req(r: &mut Rng, s: &Sys, c: usize, hot: usize) -> Req {
         Req::RegBad
     } else if roll < 66 {
         let t = if r.chance(3, 5) { hot } else { r.below(NTYPES as u64) as usize };
-        Req::Qry(r.below(4) as u32, t)
+        Req::Qry(qry_serial(r, s, c, t), t)
     } else if roll < 94 {
         // the provider answers one of its outstanding queries
         if let Some((sr, t)) = s.ci[c].asked.first().cloned() {
@@ -603,7 +620,7 @@ fn gen_req(r: &mut Rng, s: &Sys, c: usize, hot: usize) -> Req {
             };
             Req::Rpl(sr, res, t, true)
         } else {
-            Req::Qry(r.below(4) as u32, hot)
+            Req::Qry(qry_serial(r, s, c, hot), hot)
         }
     } else {
         // a reply nobody asked this connection for: another connection's serial, or a free one
@@ -613,7 +630,7 @@ fn gen_req(r: &mut Rng, s: &Sys, c: usize, hot: usize) -> Req {
             let (_, sr, t) = **r.pick(&others);
             Req::Rpl(sr, res, t, false)
         } else {
-            Req::Rpl(100 + r.below(5) as u32, res, hot, false)
+            Req::Rpl(1_000_000 + r.below(5) as u32, res, hot, false)
         }
     }
 }
@@ -705,9 +722,20 @@ fn wind_down(h: &mut Hist, s: &mut Sys, r: &mut Rng) -> Result<(), String> {
     if s.w.btask.is_none() {
         return Ok(());
     }
+    // task-dropped connections the broker has not noticed yet are forced out first (a provider query
+    // may be waiting at one of them); then every live provider answers what it was asked
     for _ in 0..64 {
+        if s.w.btask.is_none() {
+            return Ok(());
+        }
+        let z = zombies(s);
+        if let Some(c) = z.first().cloned() {
+            exec_op(h, s, Op::ShutC(c))?;
+            *s.w.chandles[c].borrow_mut() = None;
+            continue;
+        }
         let askers: Vec<usize> = alive_list(s).into_iter().filter(|j| !s.ci[*j].asked.is_empty()).collect();
-        if askers.is_empty() || s.w.btask.is_none() {
+        if askers.is_empty() {
             break;
         }
         let c = askers[0];
@@ -715,13 +743,11 @@ fn wind_down(h: &mut Hist, s: &mut Sys, r: &mut Rng) -> Result<(), String> {
         exec_op(h, s, Op::Msg(c, Req::Rpl(sr, Some(if t < 4 { t } else { 0 }), t, true)))?;
     }
     // "a requester gets exactly one QueryIntrospectionReply per query unless it disconnected": no
-    // provider query is outstanding at a live connection now, so nothing may still be open
-    for c in alive_list(s) {
-        if s.ci[c].ver >= 17 {
-            for (sr, t) in s.ci[c].open.clone() {
-                // a query whose provider query went to a task-dropped connection the broker has not
-                // noticed yet is still pending: such zombies are removed below
-                if zombies(s).is_empty() {
+    // provider query is outstanding anywhere now, so no query of a live connection may still be open
+    if s.w.btask.is_some() {
+        for c in alive_list(s) {
+            if s.ci[c].ver >= 17 {
+                for (sr, t) in s.ci[c].open.clone() {
                     monitor(h, format!("query-never-answered(conn-{},serial-{},type-{})", c, sr, t));
                 }
             }
